@@ -80,7 +80,8 @@ def run(case):
     cc = f"{cls}|pca={case['pca']}"
     hil = cls.startswith("Hilbert")
     if hil:
-        cfg["padding"] = "none"
+        # default exponential padding in half of the cases (the independent sigma reference below exists for "none" only)
+        cfg["padding"] = "exp" if case["mseed"] % 2 else "none"
     try:
         m = getattr(xe.cross, cls)(**cfg).fit(Xd, Yd, "time")
     except ValueError as e:
@@ -103,7 +104,9 @@ def run(case):
         Vx = np.linalg.svd(X, full_matrices=False)[2][: npc[0]].conj().T
         Vy = np.linalg.svd(Y, full_matrices=False)[2][: npc[1]].conj().T
         X, Y = X @ Vx, Y @ Vy
-    if hil:
+    if hil and cfg["padding"] != "none":
+        X = Y = None
+    elif hil:
         from scipy.signal import hilbert as sph
 
         def ana(M):
@@ -126,6 +129,13 @@ def run(case):
     checks += 1
     if e > 1e-7:
         F.append(Finding("oracle", "scores_cross_cov_diag", cc, f"cross-covariance of the scores differs from diag(singular values) by rel {e:.2e}"))
+    # … as a genuine covariance (means removed): the fields are centred, so the score series have zero mean
+    Gc = (S1 - S1.mean(axis=0)).conj().T @ (S2 - S2.mean(axis=0)) / (n - 1)
+    e = np.abs(Gc - np.diag(s)).max() / max(s.max(), 1e-300)
+    checks += 1
+    if e > 1e-7:
+        F.append(Finding("oracle", "scores_cross_cov_diag", cc + "|genuine", f"covariance (means removed) of the scores differs from diag(singular values) by rel {e:.2e}; "
+                         f"largest |mean score| / norm = {np.abs(S1.mean(axis=0)).max() / max(np.abs(S1).max(), 1e-300):.2e}"))
     # public scores agree with the 2-D ones
     p1 = np.asarray(m.scores()[0].transpose("time", "mode").values)
     if relerr(p1, S1) > 1e-12:
